@@ -339,6 +339,10 @@ def main():
                 args += ["--seed", sp]
             seed_found += [h for (h, o, s) in ctx.found(sb)]
         args += ["http://127.0.0.1:%d/a%d_%d.cba" % (port, a.shard, n) if transport == "http" else ap_, out, "--buffered-chunks", str(rnd.choice([1, 2, 8]))]
+        # a request header given on the command line must travel with EVERY request (header reads and chunk data); rule family HDR, beyond the list
+        token = "t%d-%d" % (a.shard, n) if rnd.random() < 0.5 else ""
+        if token:
+            args += ["--http-header", "X-Verif-Token: " + token]
         run_env = dict(ctx.env)
         if kind == "blockdev":
             run_env["BITA_VERIF_BLOCKDEV"] = "1"
@@ -349,7 +353,7 @@ def main():
                    "arch": [[ids[c["hash"]], d["data_off"] + c["aoff"], c["asz"]] for c in d["descs"]],
                    "out_found": [[ids[h], o, s] for (h, o, s) in out_found if h in ids],
                    "seed_found": sorted({ids[h] for h in seed_found if h in ids}),
-                   "layout": {k: sc.get(k) for k in ("src", "prior", "seeds")}, "nseeds": len(seeds), "stdin_seed": stdin_i}
+                   "layout": {k: sc.get(k) for k in ("src", "prior", "seeds")}, "nseeds": len(seeds), "stdin_seed": stdin_i, "token": token}
 
         said = {"text": ""}
 
@@ -410,7 +414,7 @@ def main():
                 sys.exit(2)
             if os.path.exists(st):
                 os.unlink(st)
-            http = [[x[1], x[2], x[3]] for x in RangeHandler.log if x[0].endswith("a%d_%d.cba" % (a.shard, n))]
+            http = [[x[1], x[2], x[3], x[4]] for x in RangeHandler.log if x[0].endswith("a%d_%d.cba" % (a.shard, n))]
             return code, msg, calls, http
 
         def after_ev(code, msg):
@@ -423,7 +427,7 @@ def main():
                 open(out, "wb").write(prior)
             code, msg, calls, http = run_once()
             nrun += 1
-            evs = [scen_ev] + [e for e in normalise_writes(io_events(calls, out, ap_), slots) if not (e["ev"] == "read" and e["role"] == "output")] + [{"ev": "http", "first": x[0], "last": x[1], "cut": x[2]} for x in http] + [after_ev(code, msg), {"ev": "done"}]
+            evs = [scen_ev] + [e for e in normalise_writes(io_events(calls, out, ap_), slots) if not (e["ev"] == "read" and e["role"] == "output")] + [{"ev": "http", "first": x[0], "last": x[1], "cut": x[2], "tok": x[3]} for x in http] + [after_ev(code, msg), {"ev": "done"}]
             for e in evs:
                 w.write(json.dumps(e) + "\n")
         elif a.mode == "httpfaults":
@@ -446,7 +450,7 @@ def main():
             args[:] = saved
             nrun += 1
             ev0 = dict(scen_ev, transport="http", httpfault={"budget": budget, "cuts": cuts})
-            evs = [ev0] + [e for e in normalise_writes(io_events(calls, out, ap_), slots) if e["role"] == "output"] + [{"ev": "http", "first": x[0], "last": x[1], "cut": x[2]} for x in http] + [after_ev(code, msg), {"ev": "done"}]
+            evs = [ev0] + [e for e in normalise_writes(io_events(calls, out, ap_), slots) if e["role"] == "output"] + [{"ev": "http", "first": x[0], "last": x[1], "cut": x[2], "tok": x[3]} for x in http] + [after_ev(code, msg), {"ev": "done"}]
             for e in evs:
                 w.write(json.dumps(e) + "\n")
         elif a.mode in ("plain", "stdin"):
@@ -454,7 +458,7 @@ def main():
                 open(out, "wb").write(prior)
             code, msg, calls, http = run_once()
             nrun += 1
-            evs = [scen_ev] + normalise_writes(io_events(calls, out, ap_), slots) + [{"ev": "http", "first": x[0], "last": x[1], "cut": x[2]} for x in http] + [after_ev(code, msg), {"ev": "done"}]
+            evs = [scen_ev] + normalise_writes(io_events(calls, out, ap_), slots) + [{"ev": "http", "first": x[0], "last": x[1], "cut": x[2], "tok": x[3]} for x in http] + [after_ev(code, msg), {"ev": "done"}]
             for e in evs:
                 w.write(json.dumps(e) + "\n")
         else:
@@ -498,7 +502,7 @@ def main():
                 args[:] = saved
                 ev0 = dict(scen_ev, fault=fc, writes=W, out_found=[[ids[h], o, s] for (h, o, s) in found2 if h in ids], inplace=True, first_exit=code, first_msg=msg,
                            prior_len=len(mid), kind="regular" if kind == "new" else kind)
-                evs = [ev0] + normalise_writes(io_events(calls2, out, ap_), slots) + [{"ev": "http", "first": x[0], "last": x[1], "cut": x[2]} for x in http2] + [after_ev(code2, msg2), {"ev": "done"}]
+                evs = [ev0] + normalise_writes(io_events(calls2, out, ap_), slots) + [{"ev": "http", "first": x[0], "last": x[1], "cut": x[2], "tok": x[3]} for x in http2] + [after_ev(code2, msg2), {"ev": "done"}]
                 for e in evs:
                     w.write(json.dumps(e) + "\n")
         if not os.environ.get("L2_KEEP"):
